@@ -281,6 +281,24 @@ IterStopClause(m, ev) ==
   ELSE IF ~Forward(inp) /\ ~(Inst(m, it.last) = Inst(m, inp.a) /\ it.last.rep = inp.a.rep) THEN "end-anchor-not-included"
   ELSE "ok"
 
+\* The recorded C12 finding, made precise: a bounded duration/end recurrence with a month/year interval derives its start as
+\* end - (n-1) * interval (ONE subtraction of the multiplied interval) and then iterates FORWARD from there up to the end
+\* (ImplRec.tla, MC_C12_known.cfg).  A rejected iteration step of such a recurrence is that finding only if what was yielded
+\* so far is exactly what that algorithm yields; then the clause name is prefixed "known:".  Anything else stays a violation.
+KnownNominalEnd(inp) == inp.fmt = 4 /\ inp.n >= 2 /\ ~DurExact(inp.d)
+RECURSIVE FwdSeries(_, _, _, _, _)
+FwdSeries(m, p, d, endI, k) == IF k = 0 \/ Lt3(endI, Inst(m, p)) THEN <<>> ELSE <<p>> \o FwdSeries(m, AddDurTP(m, p, d), d, endI, k - 1)
+KnownSeries(m, inp) ==
+  LET d == inp.d
+      back == [d EXCEPT !.y = -d.y * (inp.n - 1), !.mo = -d.mo * (inp.n - 1), !.len = Neg3(Mul3(d.len, inp.n - 1))]
+  IN FwdSeries(m, AddDurTP(m, inp.a, back), d, Inst(m, inp.a), inp.n + 2)
+IsPrefixOfKnown(m, inp, xs) ==
+  LET ks == KnownSeries(m, inp) IN Len(xs) <= Len(ks) /\ \A i \in 1..Len(xs) : TPMatch(m, ks[i], xs[i])
+KnownMark(m, c, xs, whole) ==
+  IF c # "ok" /\ it.open /\ KnownNominalEnd(it.inp) /\ IsPrefixOfKnown(m, it.inp, xs)
+        /\ (whole => Len(xs) = Len(KnownSeries(m, it.inp)))
+  THEN "known:" \o c ELSE c
+
 \* C12: the three notations of one exact finite series: equal, and identical iteration
 NotationsClause(m, ev) ==
   IF ~ev.ok THEN "raised-" \o ev.cls
@@ -742,10 +760,15 @@ Clause(ev) ==
     [] ev.op = "Zone"     -> ZoneClause(mode, ev)
     [] ev.op = "DurLaws"  -> DurLawsClause(mode, ev)
     [] ev.op = "IterOpen" -> "ok"
-    [] ev.op = "IterNext" -> IterNextClause(mode, ev)
-    [] ev.op = "IterStop" -> IterStopClause(mode, ev)
+    [] ev.op = "IterNext" -> KnownMark(mode, IterNextClause(mode, ev), Append(ser, ev.q), FALSE)
+    [] ev.op = "IterStop" -> KnownMark(mode, IterStopClause(mode, ev), ser, TRUE)
     [] ev.op = "IterAbandon" -> "ok"
-    [] ev.op = "IterGiven" -> IF \E k \in 1..Len(ev.pts) : ~ValidTP(mode, ev.pts[k]) THEN "yielded-invalid-point" ELSE "ok"
+    \* a series handed over as given must be the recorded behaviour itself (else the iteration is broken in some OTHER way)
+    [] ev.op = "IterGiven" -> IF \E k \in 1..Len(ev.pts) : ~ValidTP(mode, ev.pts[k]) THEN "yielded-invalid-point"
+                              ELSE IF KnownNominalEnd(ev.inp) /\ ev.complete /\
+                                      ~(LET ks == KnownSeries(mode, ev.inp) IN
+                                        Len(ks) = Len(ev.pts) /\ \A i \in 1..Len(ks) : TPMatch(mode, ks[i], ev.pts[i]))
+                                   THEN "given-series-is-not-the-recorded-behaviour" ELSE "ok"
     [] ev.op = "Notations" -> NotationsClause(mode, ev)
     [] ev.op = "Query"    -> QueryClause(mode, ev)
     [] ev.op = "Window"   -> WindowClause(mode, ev)
